@@ -118,3 +118,50 @@ func c07SqliteExpiry(x *runCtx, k lab.Kind, enc protocol.KeyEncoding) {
 		x.r.Violate(rep.Violation{Kind: "oracle", Check: "C07.sqlite-expiry", Signature: "C07.sqlite:expired-blob-returned-by-store", Input: input, PropertyFails: true})
 	}
 }
+
+// c07GrantedTTL: the registration lasts as long as the rendezvous server's policy granted, not as long as the owner asked
+// for: the owner asks for an hour, the policy grants two minutes; one minute later the redirect is released, three minutes
+// later it is not (settable clock of the journalled store).
+func c07GrantedTTL(x *runCtx, k lab.Kind, enc protocol.KeyEncoding) {
+	ctx := context.Background()
+	st := lab.NewMemState()
+	w := lab.NewWorld(st)
+	offset := time.Duration(0)
+	st.Now = func() time.Time { return time.Now().Add(offset) }
+	const requested, granted = 3600, 120
+	w.TO0S.AcceptVoucher = func(ctx context.Context, ov fdo.Voucher, req uint32) (uint32, error) { return granted, nil }
+	d, err := w.NewDevice(ctx, k, enc, "dev1", nil)
+	if err != nil {
+		fatal("DI: %v", err)
+	}
+	if err := w.Extend(ctx, d.Cred.GUID, k, "mfg", "own1", enc == protocol.X5ChainKeyEnc); err != nil {
+		fatal("extend: %v", err)
+	}
+	dns := "owner.lab"
+	addrs := []protocol.RvTO2Addr{{DNSAddress: &dns, Port: 8443, TransportProtocol: protocol.HTTPSTransport}}
+	t0 := time.Now()
+	got, err := w.RegisterBlob(ctx, d.Cred.GUID, requested, addrs, nil)
+	if err != nil {
+		fatal("TO0 with policy: %v", err)
+	}
+	input := fmt.Sprintf("%s/%s owner asks for %d s, policy grants %d s (reply says %d s)", k.Name, enc, requested, granted, got)
+	to1 := func() string {
+		return step(func() error {
+			_, err := w.TO1(ctx, d, nil)
+			return err
+		})
+	}
+	x.r.Case(input+" +60s", true, "granted-ttl")
+	offset = 60 * time.Second
+	if res := to1(); res != "ok" {
+		x.r.Violate(rep.Violation{Kind: "oracle", Check: "C07.granted-ttl", Signature: "C07.granted-ttl:live-registration-refused", Input: input + "; TO1 60 s after registration", Impl: res, PropertyFails: true})
+	}
+	x.r.Case(input+" +180s", true, "granted-ttl")
+	offset = 180 * time.Second
+	if res := to1(); res == "ok" {
+		_, exp, _ := st.RVEntry(d.Cred.GUID)
+		x.r.Violate(rep.Violation{Kind: "oracle", Check: "C07.granted-ttl", Signature: "C07.granted-ttl:redirect-released-after-granted-ttl",
+			Input: input + "; TO1 180 s after registration", Impl: fmt.Sprintf("redirect released; stored expiry is %d s after registration", int(exp.Sub(t0).Seconds())), PropertyFails: true})
+	}
+	offset = 0
+}
